@@ -23,6 +23,7 @@ for d in sorted(glob.glob("/verif/seeded/*/")):
     demos = meta.get("demo_files", [demo])
     for df in demos: shutil.copy(d+df, f"{WT}/{ddir}/{df}")
     r0 = sh(meta["demo_cmd"])
+    if os.environ.get("REVAL_DEBUG") and r0.returncode != 0: print(r0.stdout[-3000:], r0.stderr[-1000:])
     a = sh(f"git apply {d}patch.diff")
     if a.returncode != 0:
         print(name, "PATCH DOES NOT APPLY"); bad += 1; continue
